@@ -503,7 +503,10 @@ LEVEL_TEXT = (
     "sample_submultiset (k <= |b|: a sub-multiset of exactly k elements; reservoir, heap selection and the whole reduction tree via "
     "an invariant principle for Bag.reduction), choices_elements_of_b and choices_total (non-empty bag: k elements of b, no error), "
     "random_sample subsequence + function of (keep bits, partitioning). The clause 'all of b when k exceeds its size' is refuted for "
-    "the code (ValueError for every oracle; demanded by a pinned test) and recorded as a known finding. Uniformity is not claimed.")
+    "the code (ValueError for every oracle; demanded by a pinned test) and recorded as a known finding. Uniformity is not claimed. "
+    "Validated only: that the recorded draws are ALL the randomness the code uses and that elements are only moved, never hashed or "
+    "compared (function- and API-level diffs on populations with duplicates — k beyond the number of distinct values — and unhashable "
+    "elements), random_state_data_python (the per-partition generator states), delivery of results by the schedulers.")
 LEVEL_NOTE = (
     "Trusted: Lean kernel + standard axioms; the correspondence harness (recorded random draws handed to the model as its "
     "oracle; API-level clauses on sync/threads/processes schedulers); CPython random/heapq. Uniformity of the sample is not claimed.")
